@@ -33,7 +33,15 @@ structure LRTables where
   smartUnionGroup : Bool
   /-- does the `tuple` grammar action build a Python tuple (true) or leave a list (false) -/
   tupleIsTuple : Bool
+  /-- pydantic turns an integer group weight into a float (Union[NonNegativeFloat, NonNegativeInt]) -/
+  weightToFloat : Bool
 deriving Inhabited
+
+/-- the grammar's start symbol: right-hand side of the augmented production 0 (`S' → start`) -/
+def LRTables.startSym (tb : LRTables) : String :=
+  match tb.prods[0]? with
+  | some p => p.rhs.headD ""
+  | none => ""
 
 /-- semantic values on the parser stack -/
 inductive Sem where
@@ -111,7 +119,8 @@ def semAction (tb : LRTables) (p : Prod) (args : List Sem) : Option Sem :=
   | "return_statement", ["literal", "KW_WEIGHTED", "weight"], [.term t, _, .num w] => some (.groups [⟨t, w⟩])
   | "return_statement", ["literal", "KW_WEIGHTED", "weight", "COMMA", "return_statement"],
       [.term t, _, .num w, _, .groups g] => some (.groups (⟨t, w⟩ :: g))
-  | "weight", ["NON_NEG_INTEGER"], [.tok ⟨_, .int n⟩] => some (.num (.i n))
+  | "weight", ["NON_NEG_INTEGER"], [.tok ⟨_, .int n⟩] =>
+      some (.num (if tb.weightToFloat then .f (Dbl.ofNat n) else .i n))
   | "weight", ["NON_NEG_FLOAT"], [.tok ⟨_, .float d⟩] => some (.num (.f d))
   | "literal", ["MINUS", "NON_NEG_INTEGER"], [_, .tok ⟨_, .int n⟩] => some (.term (.int (-(n : Int))))
   | "literal", ["MINUS", "NON_NEG_FLOAT"], [_, .tok ⟨_, .float d⟩] =>
@@ -170,9 +179,10 @@ def lrLoop (tb : LRTables) : Nat → List Entry → List Token → Except Err Ex
               | none => throw (.other "no-goto")
               | some g => lrLoop tb fuel (⟨g, p.lhs, v⟩ :: stack') input
       else
-        match stack with
-        | ⟨_, _, .exp e⟩ :: _ => pure e
-        | _ => throw (.other "accept-without-ast")
+        -- accept: only at end of input, with exactly the start symbol on the stack
+        match input, stack with
+        | [], [⟨_, sym, .exp e⟩] => if sym == tb.startSym then pure e else throw (.other "accept-wrong-symbol")
+        | _, _ => throw (.other "accept-without-ast")
 
 /-- number of driver steps is linear in the input for this grammar; generous bound -/
 def lrParse (tb : LRTables) (toks : List Token) : Except Err Experiment :=
